@@ -5,7 +5,8 @@ from vlib import sh_str, parse_sh, hexs
 
 RULE = ("cases = (source set, shape json_shape 0.5.1 infers from it, each source document); the generated text is the "
         "implementation's REAL output (render hook), parsed into items. The property is evaluated only where the module "
-        "compiles apart from the header defect F12 (independent name-resolution check; header neutralised, stated). "
+        "compiles (independent name-resolution check on the items; the header is C13's business - since fix F12 it is a plain "
+        "`//` comment and the former neutralisation `//!` -> `//` is a no-op). "
         "quick tier: serde's derived behaviour is the extracted Gallina model deser/reser applied to the real items: every "
         "source must deserialize into the root type and re-serialize to a document approx-equal to it (kinds, explicit nulls "
         "for absent optional members). thorough tier: the same statement with the REAL serde: one crate, one "
@@ -15,8 +16,8 @@ RULE = ("cases = (source set, shape json_shape 0.5.1 infers from it, each source
         "iff the extracted c15_class(shape) is false, or the source repeats a member name, or the source is not a member of "
         "its own inferred shape (C01 KF1); otherwise a violation. non-trivial = a case whose shape has depth>=2 and whose "
         "source deserialized; distinct = distinct (shape, source)")
-ASSUMPTIONS = ["modules are judged with the header neutralised (`//!` -> `//`): as written no module compiles (C13 F12) and the "
-               "property would be vacuous",
+ASSUMPTIONS = ["modules are judged by their items; an inner-doc-comment header (the defect F12, repaired by 7d81851) would be "
+               "reported by C13, and is rewritten `//!` -> `//` here so that a regression of it does not make this property vacuous",
                "documents are compared by kind (numbers are f64 on the Rust side: formatting is outside the statement)",
                "member names restricted to printable ASCII for the model; sources reach the generator through json_shape 0.5.1",
                "the serde model (Model/Gen.v deser/reser) is validated against real serde_json + serde_derive only in the thorough tier"]
@@ -29,6 +30,14 @@ def reason(s, nodup, member):
 def cases_of(ctx):
     n = 120 if ctx.tier == "quick" else 1200
     sets = list(genlib.SOURCE_SETS) + genlib.doc_sources(ctx.rng, n)
+    # source sets aimed INSIDE the proved class: member documents of the systematically built in-class shapes
+    # (genlib.good_family: every container nesting around pairwise different objects, weak-keyword member names)
+    fam = genlib.good_family()
+    fam = fam[:: (3 if ctx.tier == "quick" else 1)]
+    for s in fam:
+        ws = [w for w in (vlib.doc_json(w) for w in vlib.witnesses(s, 8)) if "[]" not in w]   # 0.5.1 panics on []
+        if ws:
+            sets.append([ws[0], ws[-1]] if len(ws) > 1 else [ws[0]])
     inf, _ = genlib.infer051(ctx, sets)
     out = []
     for ss, s in zip(sets, inf):
